@@ -27,6 +27,7 @@ Round 2 (reference inventory; `<nsd>` = `;`-separated prefix form of a namespace
   `sitepages <k> <nsd>…`                                  → `|`-list of the paths (`/`-joined) of all files of k runs
   `sitelinks <k> <nsd>…`                                  → `|`-list of `path<TAB>href<TAB>verdict` for every relative link of the
                                                             site; verdict `ok` | `nofrag` (page exists, id missing) | `nopage`
+  `hyps <k> <nsd>…`                                       → `<runOk> <closed>` bits: the hypotheses of the link theorem for k runs
   `simple <nsd>`                                          → `1`/`0`   `simpleRun`: the sufficient condition for unique ids on the page
   `cssident <s>` / `urlsafe <s>`                          → `1`/`0`
 -/
@@ -274,6 +275,11 @@ def answer (line : String) : String :=
     if ts.length ≠ n then none
     let runs ← ts.mapM decNsD
     pure (encList (siteLinks (site runs)))
+  | "hyps" :: k :: ts => orBad do
+    let n ← k.toNat?
+    if ts.length ≠ n then none
+    let runs ← ts.mapM decNsD
+    pure s!"{bit (runs.all runOkB)} {bit (closedB runs)}"
   | ["simple", t] => orBad do pure (bit (simpleRun (← decNsD t)))
   | ["cssident", s] => orBad do pure (bit (isCssIdent (← decodeStr s)))
   | ["urlsafe", s] => orBad do pure (bit (urlSafe (← decodeStr s)))
